@@ -191,8 +191,22 @@ def _harness(c, cfg, prop):
                 if isinstance(e, SymReal):
                     c.assume(s_or(e == 0, e >= EPS, e <= -EPS))
 
-    reb = Rebalancing(contracts=contracts, allocation=allocation, measure=measure,
-                      fractional=fractional, margin=tau, time=T0)
+    if cfg.get("via_space"):
+        # the request is built by the action space, as TradingEnv.step does
+        import numpy as np
+        from tradingenv.spaces import BoxPortfolio
+        space = BoxPortfolio(contracts, low=-2e6, high=2e6, as_weights=(measure == "weight"), fractional=fractional,
+                             margin=tau)
+        if c.mode == "sym":
+            action = np.empty(len(allocation), dtype=object)
+            for i, a in enumerate(allocation):
+                action[i] = a
+        else:
+            action = np.array([float(a) for a in allocation], dtype=float)
+        reb = space.make_rebalancing_request(action, T0, br)
+    else:
+        reb = Rebalancing(contracts=contracts, allocation=allocation, measure=measure,
+                          fractional=fractional, margin=tau, time=T0)
     raised = None
     try:
         br.rebalance(reb)
